@@ -4,12 +4,13 @@
   `_same_stabilizer_state`) and of the helpers of `graphiq/backends/stabilizer/functions/linalg.py` they call
   (`row_swap`, `add_rows`, `hadamard_transform`, `row_reduction`, `_row_red_one_step`), function by function.
 
-  What is NOT the code: the two places where the Python computes a GF(2) inverse through floating point
-  (`np.linalg.det(x).astype(int) % 2 != 0`, `(np.linalg.det(x) * np.linalg.inv(x) % 2).astype(int)`) are modelled by exact
-  Gauss–Jordan elimination over GF(2) (`gf2Inv`).  The two agree whenever the float determinant / adjugate round to the exact
-  integers; `astype(int)` truncates, so a determinant 3 computed as 2.9999999999999996 makes the Python raise where the model
-  returns (finding D49, see harness/c08.py).  The soundness theorem of Properties/C08 does not depend on this choice: it holds
-  for every candidate inverse that passes the checks the code itself performs.
+  The GF(2) inverses of `_graph_finder` and `_phase_correction`: since /repo 70adac4 (repair of D51) the code computes them by the exact
+  Gauss–Jordan elimination `_gf2_inverse` (first row at or below the diagonal with a 1 in the column, swap it to the diagonal, clear every
+  other row with a 1; `None` = singular → "Stabilizer generators are not independent." / `LinAlgError`).  `gf2Inv` below is that function,
+  step by step.  (Before, the code went through floating point — `np.round(np.linalg.det(x) * np.linalg.inv(x)) % 2` — which truncated
+  (D49) and, from ≈ 42 qubits on, lost the integers altogether (D51); the model was exact already.)  `graphFinderWith` / `stateToGraphWith`
+  keep the inverse computation as a parameter: the soundness theorem of Properties/C08 holds for every candidate inverse that passes the
+  checks the code itself performs.
 
   `_position_finder` is the pivot scan of the row-echelon X part (the repair of D40, /repo 86ab4f1; before, a staircase walk
   that assumed a pivot at (0,0) and left the X part singular whenever qubit 0 had no X component).
@@ -98,7 +99,7 @@ def posLoop (x : Adj) (n k : Nat) : Nat × List Nat := (List.range k).foldl (pos
     columns without a pivot are returned (the qubits that get a Hadamard) -/
 def positionFinder (n : Nat) (x : Adj) : List Nat := (posLoop x n n).2
 
-/-! ### exact GF(2) inverse (stands for `det · inv % 2` with an odd determinant) -/
+/-! ### `_gf2_inverse`: exact GF(2) inverse by Gauss–Jordan elimination -/
 
 /-- state of the Gauss–Jordan elimination: the matrix being reduced and the accumulated row operations -/
 structure GJ where
@@ -107,7 +108,8 @@ structure GJ where
 
 def swapRows (A : Adj) (a b : Nat) : Adj := fun i => if i = a then A b else if i = b then A a else A i
 
-/-- one column: first row at or below the diagonal with a 1, swapped to the diagonal, then every other row with a 1 is cleared -/
+/-- one round of `for col in range(n)`: `pivots[0]` = first row at or below the diagonal with a 1, swapped to the diagonal (in `a` and in
+    `inv`), then every other row with a 1 in the column gets the pivot row added; `none` = `return None` -/
 def gjStep (n : Nat) (s : Option GJ) (c : Nat) : Option GJ :=
   match s with
   | none => none
@@ -120,7 +122,7 @@ def gjStep (n : Nat) (s : Option GJ) (c : Nat) : Option GJ :=
       some { a := (BMat.ofAdj n fun i j => if i ≠ c ∧ a1 i c then xor (a1 i j) (a1 c j) else a1 i j).norm
              m := (BMat.ofAdj n fun i j => if i ≠ c ∧ a1 i c then xor (m1 i j) (m1 c j) else m1 i j).norm }
 
-/-- `none` = singular over GF(2) -/
+/-- `_gf2_inverse(matrix)`; `none` = `None` (singular over GF(2)) -/
 def gf2Inv (n : Nat) (A : Adj) : Option BMat :=
   ((List.range n).foldl (gjStep n) (some { a := BMat.ofAdj n A, m := BMat.ofAdj n idM })).map fun s => s.m
 
@@ -151,7 +153,7 @@ def graphFinderTail (m2 : XZ) (xinv : Adj) (hpos : List Nat) (rank : Int) : Exce
   else .ok { adj := adj, hpos := hpos, zdiag := zdiag, rank := rank }
 
 /-- `_graph_finder(x_matrix, z_matrix, get_ops_data=True)` with the inverse computation as a parameter:
-    `inv n A = none` stands for a failed determinant assertion, `some M` for the matrix `(det · inv % 2).astype(int)` -/
+    `inv n A = none` stands for `_gf2_inverse` returning `None` (the assertion fires), `some M` for the matrix it returns -/
 def graphFinderWith (inv : Nat → Adj → Option Adj) (m0 : XZ) : Except Err GraphFinderOut :=
   if m0.n = 0 then .error .runtime else
   let (m1, rank0) := m0.norm.rowReduction
@@ -160,7 +162,7 @@ def graphFinderWith (inv : Nat → Adj → Option Adj) (m0 : XZ) : Except Err Gr
   let rank := if m1.x rk (m0.n - 1) then rank0 else rank0 - 1
   let hpos := positionFinder m0.n m1.x
   let m2 := (m1.hadamardTransform hpos).norm
-  -- `assert det(x_mat).astype(int) % 2 != 0` and `x_inv = (det(x_mat.T) * inv(x_mat.T) % 2).astype(int)`
+  -- `x_inv = _gf2_inverse(x_mat.T)`; `assert x_inv is not None, "Stabilizer generators are not independent."`
   match inv m0.n (transpose m2.x) with
   | none => .error .assertion
   | some xinv => graphFinderTail m2 xinv hpos rank
@@ -176,7 +178,7 @@ def graphFinder (m0 : XZ) : Except Err GraphFinderOut := graphFinderWith gf2InvF
 /-- `[("H", pos) for pos in h_pos] + [("P_dag", pos) for pos in p_dag_pos]` -/
 def lcGates (hpos zdiag : List Nat) : List Gate := hpos.map Gate.H ++ zdiag.map Gate.Pdag
 
-/-- `_phase_correction(tab, g_tab, gate_list)`; `LinAlgError` (a `ValueError`) when the X part of the canonical form of the
+/-- `_phase_correction(tab, g_tab, gate_list)` (`x_inv = _gf2_inverse(x_mat)`); `LinAlgError` (a `ValueError`) when the X part of the canonical form of the
     transformed state is singular (unreachable after a successful `_graph_finder`: it is the identity there) -/
 def phaseCorrection (t : STab) (gt : STab) (gates : List Gate) : Except Err (List Gate) :=
   match t.canonicalForm with
